@@ -86,7 +86,7 @@ def classify(cex):
     v = cex.get("violation")
     if v == "read-failed":
         return "read_vs_unlink"
-    if v == "dangling":
+    if v in ("dangling", "not-exact"):
         puts = [i for i, k in enumerate(kinds) if k == "put"]
         steps = cex.get("steps", [])
         for a in puts:
@@ -100,7 +100,7 @@ def classify(cex):
                             return "same_key_intent_clobber"
                     except ValueError:
                         pass
-        return "dangling"
+        return v
     return v or "schedule"
 
 
@@ -123,7 +123,7 @@ def digest_hash_hook(ex, st_meta_key="thread_hash"):
     return m_hash_from_bytes
 
 
-def explore(ex, kinds, U=2, HU=2, inv=None, max_states=200000):
+def explore(ex, kinds, U=2, HU=2, inv=None, max_states=200000, no_orphans=False):
     """run the given operations as threads from an arbitrary quiet store; -> (sw, infos, finals)"""
     from obl_replay import scoped_models
     with scoped_models(ex):
@@ -131,6 +131,8 @@ def explore(ex, kinds, U=2, HU=2, inv=None, max_states=200000):
             IoModel(ex.models)
         st = State()
         sw = quiet_world(ex, st, U, HU)
+        if no_orphans:
+            st.pc += [z3.Not(b) for b in sw.orphan_bits]
         progs, infos = [], []
         hashes = {}
         for i, kd in enumerate(kinds):
@@ -140,6 +142,11 @@ def explore(ex, kinds, U=2, HU=2, inv=None, max_states=200000):
             if kd == "put":
                 hashes[i] = info["hash"]
         st.meta["thread_hashes"] = hashes
+        # content addressing across threads: equal hashes mean equal contents, hence equal sizes
+        puts = [inf for inf in infos if inf["kind"] == "put"]
+        for a in range(len(puts)):
+            for b in range(a + 1, len(puts)):
+                st.pc.append(z3.Implies(puts[a]["hash"] == puts[b]["hash"], puts[a]["size"] == puts[b]["size"]))
         ex.models.reg("BlobHash::from_bytes", digest_hash_hook(ex))
         ex.on_schedule = inv(sw, infos) if inv else None
         try:
@@ -191,11 +198,15 @@ def summarize(st):
     return out
 
 
-def ob_schedules(ex, kinds, U=2, HU=2, tags=("C04",), check_reads=True):
+def ob_schedules(ex, kinds, U=2, HU=2, tags=("C04",), check_reads=True, final_exact=False):
     t0 = time.time()
     q0 = ex.queries
-    sw, infos, finals = explore(ex, kinds, U, HU, inv=inv_no_dangling(ex))
-    name = "every interleaving of " + " || ".join(kinds) + f" (U={U}, HU={HU}): no dangling reference at any instant; reads of present keys succeed"
+    sw, infos, finals = explore(ex, kinds, U, HU, inv=inv_no_dangling(ex), no_orphans=final_exact)
+    what_ = {"C15": "some thread can always proceed until all are done (no deadlock), no panic",
+             "C07": "no dangling reference at any instant; after an error-free schedule cas/ holds exactly the referenced contents",
+             "C05": "a get whose key was present at its lookup succeeds; no dangling reference at any instant"}.get(
+                 tags[0] if tags else "", "no dangling reference at any instant; reads of present keys succeed")
+    name = "every interleaving of " + " || ".join(kinds) + f" (U={U}, HU={HU}): " + what_
     terms = dict(keys=sw.iw.keys, hashes=sw.iw.hashes, pk=sw.iw.pk, hk=sw.iw.hk, orphans=sw.orphan_bits)
     for i, inf in enumerate(infos):
         for k2, v in inf.items():
@@ -217,6 +228,16 @@ def ob_schedules(ex, kinds, U=2, HU=2, tags=("C04",), check_reads=True):
             for tid, rv in f.meta.get("results", {}).items():
                 if infos[tid]["kind"] == "get" and isinstance(rv, VEnum) and rv.concrete() == 1:
                     what = ("read-failed", "a get returned an error (BlobDataMissing) although its key was present at its lookup")
+        if what is None and final_exact and f.status == "returned":
+            res = f.meta.get("results", {})
+            if all(isinstance(rv, VEnum) and rv.concrete() == 0 for rv in res.values()):
+                w = sw.iw
+                post = w.snapshot_of(f, sw.state_ref)
+                blobs = f.meta["blobs"]
+                bad = z3.Or([z3.Select(blobs, g) != z3.Or([z3.And(post["pk"][i], post["hk"][i] == g) for i in range(w.U)]) for g in w.hashes])
+                if ex.feasible(f.pc, bad):
+                    f.pc.append(bad)
+                    what = ("not-exact", "after an error-free schedule the files under cas/ are not exactly the referenced contents")
         if what:
             pre = dict(kinds=list(kinds), violation=what[0], detail=what[1], schedule=f.meta.get("schedule"), steps=summarize(f))
             # the role needs the concrete keys: evaluate a model only for the first path of each candidate role
